@@ -3,7 +3,8 @@ import vlib
 from scale_common import ScaleSpec
 from pipes_common import PipeSpec, XSlicesAgreeSpec
 
-SPECS = {"scale": (ScaleSpec(['last']), "harness", "runner"), "iterator": (PipeSpec("iter", False), "harness", "runner"), "stream": (PipeSpec("stream", False), "harness", "runner"), "xslices": (XSlicesAgreeSpec(), "harness", "runner")}
+SPECS = {"scale": (ScaleSpec(['last']), "harness", "runner"), "iterator": (PipeSpec("iter", False), "harness", "runner"), "stream": (PipeSpec("stream", False), "harness", "runner"), "xslices": (XSlicesAgreeSpec(), "harness", "runner"),
+         "iterator-panics": (PipeSpec("iter", False, panics=True), "harness", "runner")}
 
 PROP_FILES = ["C07"]
 
@@ -16,6 +17,8 @@ def run(ctx):
         return ctx.finish()
     vlib.seq_differential(ctx, PipeSpec("iter", faults=False), exe, proofs_ok, tag="iterator")
     vlib.seq_differential(ctx, PipeSpec("stream", faults=False), exe, proofs_ok, tag="stream")
+    # panicking callbacks (recovered by the consumer, who goes on): the model says what each combinator's state then is
+    vlib.seq_differential(ctx, PipeSpec("iter", faults=False, panics=True), exe, proofs_ok, tag="iterator-panics", scale=0.3)
     vlib.seq_differential(ctx, XSlicesAgreeSpec(), exe, proofs_ok, tag="xslices")
     okS, outS, exeS = vlib.build_runner()
     if okS:
